@@ -168,9 +168,9 @@ CLAIMS["C23"] = {"engine": "wallet-runes", "level": "model_checking",
 ENGINES.append({"name": "offer", "path": "spec/Offer.tla", "serves_properties": ["C24"],
                 "kind_free_text": "TLA+ transcription of the offer acceptance gate (Decide / AfterSign) with the advertised-trade predicate; OfferModel checks every PSBT shape up to 3 inputs with a signing node that may replace signatures; OfferTrace validates the real `ord wallet offer accept` on generated PSBTs"})
 CLAIMS["C24"] = {"engine": "offer", "level": "model_checking",
-                 "text": "TLC explores every abstract PSBT of up to 2 (thorough: 3) inputs over 60 input classes (owner x contents {none, X, Y, X+Y, Y+X} x runes x signature {none, standard, not preserved}), both namings, both balance outcomes and every choice of which signatures the node preserves; invariant: a broadcast implies exactly one wallet input holding exactly the named inscription and no runes, the exact balance change, all other inputs signed and their signatures unchanged. Generated concrete PSBTs (damaged well-formed offers) are presented to the real command; TLC requires on the recorded trace that whatever reached the mempool is the offered transaction and satisfies the same predicate with the output contents read from the real index, that refusals broadcast nothing, and (MODEL-DRIFT only) that the outcome equals the model's decision",
+                 "text": "TLAPS proves Offer!GateSound for PSBTs with any number of inputs (a decision to sign followed by a broadcast implies the advertised trade; spec/OfferProofs.tla, 26 obligations). TLC explores every abstract PSBT of up to 2 (thorough: 3) inputs over 60 input classes (owner x contents {none, X, Y, X+Y, Y+X} x runes x signature {none, standard, not preserved}), both namings, both balance outcomes and every choice of which signatures the node preserves; invariant: a broadcast implies exactly one wallet input holding exactly the named inscription and no runes, the exact balance change, all other inputs signed and their signatures unchanged. Generated concrete PSBTs (damaged well-formed offers) are presented to the real command; TLC requires on the recorded trace that whatever reached the mempool is the offered transaction and satisfies the same predicate with the output contents read from the real index, that refusals broadcast nothing, and (MODEL-DRIFT only) that the outcome equals the model's decision",
                  "note": "trusted: TLC, the harness PSBT builder, mockcore as the node (its walletprocesspsbt/finalizepsbt replace every witness by a fixed 64-byte one, which is what makes 'not preserved' signatures observable; its simulaterawtransaction is told the node's network through the guarded hook)",
-                 "technique": "TLC model checking of the acceptance gate (OfferModel) + TLA+ trace validation of the real command on generated PSBTs (OfferTrace)"}
+                 "technique": "TLAPS proof and TLC model checking of the acceptance gate (OfferProofs, OfferModel) + TLA+ trace validation of the real command on generated PSBTs (OfferTrace)"}
 
 ENGINES.append({"name": "batch", "path": "spec/BatchPlan.tla", "serves_properties": ["C21"],
                 "kind_free_text": "TLA+ model of the batch planner's bookkeeping (pointers, postage sums, parent inputs/outputs, reveal layout per mode, reported locations) composed with the indexer's pointer placement rule; BatchModel is checked exhaustively by TLC; BatchTrace validates what the real `ord wallet batch` reports against what the real index holds after mining"})
